@@ -28,7 +28,7 @@ from contracts.histories import tree_snapshot
 from pyvc.contracts import Contract
 from pyvc.core import fresh_name
 
-OPS = ("points", "group", "data", "pgroup", "reuse_same", "reuse_cross", "reuse_data", "reuse_pg", "pg_reuse", "reuse_type", "copy_same", "copy_other", "copy_other_again", "remove", "remove_other", "recreate", "reopen", "gc")
+OPS = ("points", "group", "data", "pgroup", "reuse_same", "reuse_cross", "reuse_data", "reuse_pg", "pg_reuse", "reuse_type", "copy_same", "copy_other", "copy_other_again", "copy_type_other", "remove", "remove_other", "recreate", "reopen", "gc")
 
 
 def _live(ws):
@@ -103,6 +103,8 @@ def run_history(case):
         ws = wss[0]
         removed = []
         other_ids = set()
+        other_type_ids = set()
+        kept_types = []
         for step, (op, a) in enumerate(case["ops"]):
             tag = f"step {step} ({op} {a})"
             objs = sorted(ws.objects, key=lambda o: o.name)
@@ -169,10 +171,26 @@ def run_history(case):
                     c = o.copy(parent=other)
                     got = {c.uid} | {k.uid for k in c.children} | {pg.uid for pg in (c.property_groups or [])}
                     other_ids |= got
+                    other_type_ids |= {k.entity_type.uid for k in c.children if hasattr(k, "entity_type")} | {c.entity_type.uid}
                     if not free <= got:
                         bad = f"{tag}: a copy into another workspace dropped identifiers that were free there: {sorted(map(str, free - got))}"
                     bad = bad or _check(other, tag + " [other workspace]")
                 del c, o  # the harness keeps no reference to entities it may remove later
+            elif op == "copy_type_other" and objs:
+                # a data type carried into the other workspace keeps its identifier when it is free there
+                kids = [c for o in objs for c in o.children if hasattr(c, "values")]
+                if kids:
+                    t = pick(kids).entity_type
+                    other = wss[1]
+                    free = t.uid not in other_type_ids
+                    nt = t.copy(workspace=other)
+                    if free and nt.uid != t.uid:
+                        bad = f"{tag}: a type copied into another workspace got a fresh identifier although its own was free there"
+                    if not free and nt.uid == t.uid:
+                        bad = f"{tag}: two types of the other workspace share identifier {t.uid}"
+                    other_type_ids.add(nt.uid)
+                    kept_types.append(nt)  # types are weakly registered: the harness keeps them alive on purpose
+                    bad = bad or _check(other, tag + " [other workspace]")
             elif op == "remove_other":
                 other = wss[1]
                 victims = sorted(other.objects, key=lambda o: o.name)
@@ -236,8 +254,8 @@ class IdentifierHistories(Contract):
     has_native = True
     props = ("C06",)
     bounded_scope = ("two file-backed workspaces; sequences of 5-10 operations over {create points/group/data/property group, create with an identifier in use by the same kind (given as UUID, text, braced or upper-case text, or through the 'ID' attribute key) / a type with the identifier of a type of another class / "
-                     "another kind / a property group, property group with an object's or data's identifier, data with its parent's or a group's identifier, copy within / into the other workspace (twice, also after removing the earlier copy there), remove, re-create with the "
-                     "freed identifier, re-open, gc}: 20 fixed + 60 seeded (quick) / 800 seeded (thorough); uniqueness, lookup, refusal-without-side-effects and type sharing after every step")
+                     "another kind / a property group, property group with an object's or data's identifier, data with its parent's or a group's identifier, copy within / into the other workspace (also after the source gained new property groups, so that identifiers are free and taken in the same copy), a data type copied into the other workspace, (twice, also after removing the earlier copy there), remove, re-create with the "
+                     "freed identifier, re-open, gc}: 22 fixed + 60 seeded (quick) / 800 seeded (thorough); uniqueness, lookup, refusal-without-side-effects and type sharing after every step")
 
     FIXED = [
         [("points", 0), ("reuse_same", 0)],
@@ -251,6 +269,8 @@ class IdentifierHistories(Contract):
         [("group", 0), ("points", 0), ("reuse_same", 2), ("reopen", 0)],
         [("group", 0), ("points", 0), ("reuse_same", 4), ("reopen", 0)],
         [("points", 0), ("reuse_type", 0), ("points", 0), ("copy_same", 0)],
+        [("points", 0), ("data", 0), ("copy_type_other", 0), ("copy_type_other", 0)],
+        [("points", 0), ("data", 0), ("pgroup", 0), ("copy_other", 0), ("data", 0), ("pgroup", 0), ("copy_other", 0)],
         [("points", 0), ("data", 0), ("pg_reuse", 1), ("reopen", 0)],
         [("points", 0), ("data", 0), ("pgroup", 0), ("copy_same", 0), ("copy_same", 1)],
         [("points", 0), ("data", 0), ("pgroup", 0), ("copy_other", 0), ("copy_other_again", 0)],
